@@ -17,7 +17,7 @@ Definition C17_full_statement : Prop :=
     (* exactly the documented components, in order, named from the entity name *)
     map skel cs = spec_skeleton e
     (* every internal reference resolves inside the expansion or the implicit imports *)
-    /\ closed cs = true /\ compile e = Ok cs
+    /\ closed cs = true /\ (fields_ok e = true -> compile e = Ok cs)
     (* the same entity annotation on every part that carries one *)
     /\ Forall (eq (snake_name e)) (psm_entities cs)
     /\ Forall (eq (snake_name e)) (service_entities cs)
@@ -32,7 +32,7 @@ Proof.
   repeat split; try assumption.
   - apply expand_skeleton.
   - apply expand_closed.
-  - rewrite compile_expand. exact H.
+  - intros Hok. rewrite (compile_expand e Hok). exact H.
   - exists fl. apply main_file_messages.
 Qed.
 Print Assumptions C17_full.
@@ -50,9 +50,15 @@ Theorem C17_closed : forall e fl, closed (expand_with e fl) = true.
 Proof. exact expand_closed. Qed.
 Print Assumptions C17_closed.
 
-Theorem C17_compile_is_expand : forall e, compile e = expand e.
+(* fields_ok: no user-declared field is both optional and required/primary (buildProperty) *)
+Theorem C17_compile_is_expand : forall e, fields_ok e = true -> compile e = expand e.
 Proof. exact compile_expand. Qed.
 Print Assumptions C17_compile_is_expand.
+
+Theorem C17_compile_errors : forall e cs, expand e = Ok cs ->
+  compile e = if fields_ok e then Ok cs else Err "cannot be both required and optional".
+Proof. exact compile_errors. Qed.
+Print Assumptions C17_compile_errors.
 
 Theorem C17_expand_total : forall e, is_panic (expand e) = false /\ expand e <> OutOfFuel.
 Proof. exact expand_total. Qed.
@@ -224,23 +230,24 @@ Print Assumptions C17_legacy_naming_refuted.
    an entity whose name ends in a capital too *)
 Definition C17_sample : entity :=
   mkE (bs "foo.v1") (bs "FooS") []
-      [mkK (mkU (bs "fooId") (KKey true None) false) false;
-       mkK (mkU (bs "accountId") (KKey false (Some (bs "account"))) true) true]
-      [mkU (bs "name") (KScalar 9 (bs "string")) true]
+      [mkK (mkU (bs "fooId") (KKey true None None) false false) false;
+       mkK (mkU (bs "accountId") (KKey false (Some (bs "other.v1", bs "account")) (Some (bs "account"))) true false) true]
+      [mkU (bs "name") (KScalar 9 (bs "string")) true false; mkU (bs "note") (KScalar 9 (bs "string")) false true]
       [bs "ACTIVE"; bs "INACTIVE"]
-      [mkEv (bs "Create") [mkU (bs "name") (KScalar 9 (bs "string")) false]; mkEv (bs "Archive") []]
-      [mkC None None [mkM (bs "DoIt") 2 (bs ":fooId/doit") [mkU (bs "fooId") (KKey false None) false] []]]
-      [mkS [] [mkU (bs "name") (KScalar 9 (bs "string")) false]]
+      [mkEv (bs "Create") [mkU (bs "name") (KScalar 9 (bs "string")) false false]; mkEv (bs "Archive") []]
+      [mkC None None [mkM (bs "DoIt") 2 (bs ":fooId/doit") [mkU (bs "fooId") (KKey false None None) false false] (Some []);
+                      mkM (bs "Download") 1 (bs "dl") [] None]]
+      [mkS [] [mkU (bs "name") (KScalar 9 (bs "string")) false false]]
       (Some (mkQ true [bs "ACTIVE"])).
 
 Example C17_example :
-  (exists cs, compile C17_sample = Ok cs /\ length cs = 20%nat)
+  (exists cs, compile C17_sample = Ok cs /\ length cs = 21%nat)
   /\ nth 0 (query_paths C17_sample) [] = bs "/foo/v1/foo_s/q/{foo_id}/{account_id}"
   /\ nth 2 (query_paths C17_sample) [] = bs "/foo/v1/foo_s/q/{foo_id}/{account_id}/events"
   /\ status_values (status_prefix C17_sample) (e_status C17_sample)
      = [(bs "FOO_S_STATUS_UNSPECIFIED", 0); (bs "FOO_S_STATUS_ACTIVE", 1); (bs "FOO_S_STATUS_INACTIVE", 2)]
   /\ Forall (fun k => no_slash (uf_name (k_def k)) = true) (e_keys C17_sample)
-  /\ upper_word (e_name C17_sample) = true.
+  /\ upper_word (e_name C17_sample) = true /\ fields_ok C17_sample = true.
 Proof.
   split; [eexists; split; [vm_compute; reflexivity|reflexivity]|].
   repeat split; try (vm_compute; reflexivity). repeat constructor.
